@@ -502,6 +502,7 @@ where
 
             Expr::Do(&mut Do {
                 ref id,
+                ref typ,
                 ref bound,
                 ref body,
                 ..
@@ -522,6 +523,15 @@ where
                                 self.space_before(pattern.span.start()),
                                 self.pretty_pattern(pattern),
                                 self.space_after(pattern.span.end()),
+                                match typ {
+                                    Some(typ) => chain![
+                                        arena,
+                                        ": ",
+                                        types::pretty_print(self, typ),
+                                        self.space_after(typ.span().end())
+                                    ],
+                                    None => arena.nil(),
+                                },
                                 "="
                             ];
                             chain![
